@@ -116,6 +116,20 @@ def oracle(c, r):
     if R[1] != r['expected']: return f'the waiting reaper returned {R[1]} instead of {r["expected"]}'
     for g, v in r['out'].items():
         if g.startswith('G') and v[0] != 'ok': return f'grower {g} failed: {v}'
+    # what the poller reported must never exceed what had really been published when it finished looking
+    published = 0
+    last_p = max([i for i, e in enumerate(r['trace']) if e['actor'] == 'P'], default=-1)
+    for i, e in enumerate(r['trace'][:last_p + 1]):
+        if e['op'] == 'rename' and 'xyz-result-' in os.path.basename(e.get('q', '')) and not os.path.basename(e['q']).startswith('.'):
+            published += 1
+        if e['op'] == 'close' and os.path.basename(e['p']).startswith('xyz-result-'): published += 1
+    P = r['out'].get('P')
+    if P and P[0] == 'ok':
+        nb = len(r['expected'])
+        for num, ready in P[1]:
+            if num > min(published, nb): return f'a progress query reported {num} finished results when only {published} had been published'
+            if ready and published < nb: return f'is_ready_to_reap() was True when only {published} of {nb} results had been published'
+    elif P and P[0] != 'ok': return f'the progress poller failed: {P}'
     openw = set()
     for e in r['trace']:
         if e['op'] == 'create': openw.add(e['p'])
